@@ -18,7 +18,7 @@ from ..core import Ctx
 
 _N = [0]
 KINDS = ["single", "optional", "variadic"]
-CONSTRS = [["any"], ["eq", 1], ["var", "T"]]
+CONSTRS = [["any"], ["eq", 1], ["var", "T"], ["rvar", "R"]]
 
 
 def toks():
@@ -37,7 +37,13 @@ def make_class(d: dict[str, Any]):
     T = toks()
     vars_ = {"T": VarConstraint("T", AnyAttr()), "U": VarConstraint("U", AnyAttr())}
 
+    from xdsl.irdl import RangeOf, RangeVarConstraint
+
+    rvar = RangeVarConstraint("R", RangeOf(AnyAttr()))
+
     def constr(c):
+        if c[0] == "rvar":
+            return rvar
         if c[0] == "any":
             return AnyAttr()
         if c[0] == "eq":
@@ -148,6 +154,8 @@ def gen_defs(rng, exhaustive_small: bool):
             for kinds in itertools.product(KINDS, repeat=n):
                 if with_c:
                     for cs in itertools.product(range(len(CONSTRS)), repeat=n):
+                        if any(CONSTRS[c][0] == "rvar" and k != "variadic" for k, c in zip(kinds, cs)):
+                            continue   # a range variable constrains a whole variadic segment
                         yield [{"kind": k, "c": CONSTRS[c]} for k, c in zip(kinds, cs)]
                 else:
                     yield [{"kind": k, "c": ["any"]} for k in kinds]
@@ -276,14 +284,21 @@ def build_via_constructor(rng, cls, d, ext):
     bind = {"T": rng.choice([1, 2]), "U": rng.choice([1, 2])}
 
     def tok_for(c):
-        return rng.choice([1, 2, 3]) if c[0] == "any" else (c[1] if c[0] == "eq" else bind[c[1]])
+        return rng.choice([1, 2, 3]) if c[0] in ("any", "rvar") else (c[1] if c[0] == "eq" else bind[c[1]])
+
+    r_seq = [rng.choice([1, 2, 3]) for _ in range(rng.randint(0, 2))]   # the one value of range variable R
 
     def seg_sizes(segs, opt):
-        same = rng.choice([0, 1]) if any(s["kind"] == "optional" for s in segs) else rng.randint(0, 2)
+        has_r = any(s["c"][0] == "rvar" for s in segs)
+        same = len(r_seq) if has_r else (rng.choice([0, 1]) if any(s["kind"] == "optional" for s in segs) else rng.randint(0, 2))
+        if has_r and opt == "same" and any(s["kind"] == "optional" for s in segs) and same > 1:
+            return None
         out = []
         for s in segs:
             if s["kind"] == "single":
                 out.append(1)
+            elif s["c"][0] == "rvar":
+                out.append(len(r_seq))
             elif opt == "same":
                 out.append(same)
             elif s["kind"] == "optional":
@@ -293,17 +308,19 @@ def build_via_constructor(rng, cls, d, ext):
         return out
 
     so, sr, sg = seg_sizes(d["ops"], d["oopt"]), seg_sizes(d["res"], d["ropt"]), seg_sizes(d["regs"], d["gopt"])
+    if so is None or sr is None or sg is None:
+        return None
     oargs, rargs, gargs = [], [], []
     flat_o, flat_r = [], []
     from xdsl.dialects import test
 
     for s, n in zip(d["ops"], so):
-        ts = [tok_for(s["c"]) for _ in range(n)]
+        ts = list(r_seq) if s["c"][0] == "rvar" else [tok_for(s["c"]) for _ in range(n)]
         flat_o += ts
         vals = list(test.TestOp.create(result_types=[T[t] for t in ts]).results)
         oargs.append(vals[0] if s["kind"] == "single" else (vals if s["kind"] == "variadic" else (vals[0] if vals else None)))
     for s, n in zip(d["res"], sr):
-        ts = [tok_for(s["c"]) for _ in range(n)]
+        ts = list(r_seq) if s["c"][0] == "rvar" else [tok_for(s["c"]) for _ in range(n)]
         flat_r += ts
         tys = [T[t] for t in ts]
         rargs.append(tys[0] if s["kind"] == "single" else (tys if s["kind"] == "variadic" else (tys[0] if tys else None)))
